@@ -43,8 +43,11 @@ class Mod:
         self.imports = []      # (prefix, module name, revision-date or "")
         self.includes = []     # (submodule name, revision-date or "")
         self.idents = []       # [name, [base strings]]
-        self.typedefs = []     # (name, base string)
-        self.leaves = []       # (name, 'ref', base string) | (name, 'td', typename-with-prefix, ctx Mod, base string)
+        self.typedefs = []     # (name, base string): typedef name { type identityref { base ..; } }
+        self.aliases = []      # (name, type name): typedef name { type <type name>; }
+        # (name, 'ref', base string) | (name, 'td', typename-with-prefix, ctx Mod, base string)
+        # | (name, 'union', [member]) with member = ('ref', base) | ('td', typename, ctx Mod, base) | ('plain', type)
+        self.leaves = []
 
 
 class Schema:
@@ -147,6 +150,42 @@ def did(m, idname):
     return full(m) + ":" + idname
 
 
+def leaf_members(m, lf):
+    """the identityref type statements behind leaf lf of (sub)module m, in order: (module the statement is in, base)"""
+    if lf[1] == "ref":
+        return [(m, lf[2])]
+    if lf[1] == "td":
+        return [(lf[3], lf[4])]
+    out = []
+    for mem in lf[2]:
+        if mem[0] == "ref":
+            out.append((m, mem[1]))
+        elif mem[0] == "td":
+            out.append((mem[2], mem[3]))
+    return out
+
+
+def leaf_text(lf):
+    if lf[1] == "ref":
+        return "type identityref { base %s; }" % lf[2]
+    if lf[1] == "td":
+        return "type %s;" % lf[2]
+    ms = []
+    for mem in lf[2]:
+        ms.append("type identityref { base %s; }" % mem[1] if mem[0] == "ref" else "type %s;" % mem[1])
+    return "type union { %s }" % " ".join(ms)
+
+
+def local_only(m, lf):
+    """the leaf without typedef indirection through other modules (None when nothing is left)"""
+    if lf[1] == "ref":
+        return lf
+    if lf[1] == "td":
+        return (lf[0], "ref", lf[4]) if lf[3] is m else None
+    mems = [mem for mem in lf[2] if mem[0] != "td"]
+    return (lf[0], "union", mems) if any(mem[0] == "ref" for mem in mems) else None
+
+
 def ref_string(rnd, sc, src, target_part, idname, fresh_prefix=True):
     """a base argument, written inside (sub)module src, that names identity idname declared in target_part;
     adds an import to src when one is needed"""
@@ -216,7 +255,8 @@ def gen_schema(rnd):
                 m.includes = []
         if consistent(sc):
             sc.auto = choose_auto(rnd, sc) if rnd.random() < 0.7 else []
-            subs = [m for m in sc.mods if m.sub]
+            # parsed only after a first Process: submodules, and revisions of a module of which another is there
+            subs = [m for m in sc.mods if m.sub or sc.multi(m)]
             sc.late = rnd.sample(subs, rnd.randint(1, len(subs))) if subs and rnd.random() < 0.7 else []
             return sc
 
@@ -248,7 +288,7 @@ def revisionize(rnd, sc):
     sc.variant = "rev"
     sc.edges = None
     for m in sc.mods:      # typedef indirection off (cf. the free-form variant)
-        m.leaves = [lf if lf[1] == "ref" else (lf[0], "ref", lf[4]) if lf[3] is m else None for lf in m.leaves]
+        m.leaves = [local_only(m, lf) for lf in m.leaves]
         m.leaves = [lf for lf in m.leaves if lf is not None]
         m.typedefs = []
     date_some(rnd, sc)
@@ -273,7 +313,25 @@ def revisionize(rnd, sc):
             names.append(n)
         for lf in src.leaves:
             nleaf[0] += 1
-            c.leaves.append(("%sr%d" % (lf[0], nleaf[0]), "ref", lf[2]))
+            c.leaves.append(("%sr%d" % (lf[0], nleaf[0]),) + tuple(lf[1:]))
+        # the same prefix bound to another module than in the other revision(s)
+        others = [o for o in modules if o.name != src.name]
+        if not src.sub and others and c.imports and rnd.random() < 0.5:
+            j = rnd.randrange(len(c.imports))
+            p, _n, _d = c.imports[j]
+            tgt = rnd.choice(others)
+            c.imports[j] = (p, tgt.name, "")
+            avail = [n for part in sc.whole(sc.reg_get(False, tgt.name) or tgt) for n, _ in part.idents]
+            ok = lambda b: not b.startswith(p + ":") or b.split(":", 1)[1] in avail
+            for ident in c.idents:
+                ident[1] = [b for b in ident[1] if ok(b)]
+            c.leaves = [lf for lf in c.leaves if all(ok(b) for _, b in leaf_members(c, lf))]
+            fresh = [n for n in IDNAMES if n not in [x for x, _ in c.idents]]
+            if avail and fresh:
+                b = p + ":" + rnd.choice(avail)
+                c.idents.append([rnd.choice(fresh), [b]])
+                nleaf[0] += 1
+                c.leaves.append(("lp%d" % nleaf[0], "ref", b))
         return c
     target = rnd.choice(modules)
     for k in range(rnd.choice([1, 1, 2])):
@@ -281,6 +339,29 @@ def revisionize(rnd, sc):
     if subs and rnd.random() < 0.35:
         sc.mods.append(clone(rnd.choice(subs), 0))
     pin_some(rnd, sc)
+    # identityref typedefs in another module over identities of the latest revision, reached through an import
+    # without revision-date: leaves typed by the typedef directly, through a second typedef, as a union member
+    users = [m for m in modules if m.name != target.name]
+    latest = sc.reg_get(False, target.name)
+    avail = [n for n, _ in latest.idents]
+    if users and avail and rnd.random() < 0.6:
+        u = rnd.choice(users)
+        free = [p for p, n, d in u.imports if n == target.name and d == "" and p != u.prefix and
+                [q for q, _, _ in u.imports].index(p) == u.imports.index((p, n, d))]
+        if free:
+            p = free[0]
+        else:
+            used = {u.prefix} | {q for q, _, _ in u.imports}
+            p = rnd.choice([q for q in PREFIXES + ["zq"] if q not in used])
+            u.imports.append((p, target.name, ""))
+        base = p + ":" + rnd.choice(avail)
+        nleaf[0] += 1
+        k = nleaf[0]
+        u.typedefs.append(("tr%d" % k, base))
+        u.aliases.append(("ta%d" % k, "tr%d" % k))
+        u.leaves.append(("lt%d" % k, "td", "tr%d" % k, u, base))
+        u.leaves.append(("lu%d" % k, "td", "ta%d" % k, u, base))
+        u.leaves.append(("lv%d" % k, "union", [("plain", "string"), ("td", "tr%d" % k, u, base)]))
 
 
 def gen_schema1(rnd):
@@ -357,7 +438,28 @@ def gen_schema1(rnd):
             holder = rnd.choice(vis) if rnd.random() < 0.9 else rnd.choice(sc.mods)
             bp, bn = rnd.choice(visible)
             base_of["l%d" % li] = (bp, bn)
-            if rnd.random() < 0.7:
+            r_kind = rnd.random()
+            if r_kind < 0.3:
+                # a union of identityref members (directly, through typedefs), bases preferably of one bare name
+                mems = []
+                for j in range(rnd.choice([2, 2, 3])):
+                    same = [(q, n) for q, n in visible if n == bn and not any(q is x and n == y for x, y in [(bp, bn)])]
+                    tp, tn = (bp, bn) if j == 0 else rnd.choice(same) if same and rnd.random() < 0.7 else rnd.choice(visible)
+                    k = rnd.random()
+                    if k < 0.55:
+                        mems.append(("ref", ref_string(rnd, sc, holder, tp, tn)))
+                    elif k < 0.9:
+                        tpart = rnd.choice(vis)
+                        tname = "t%d_%d" % (li, j)
+                        tbase = ref_string(rnd, sc, tpart, tp, tn)
+                        tpart.typedefs.append((tname, tbase))
+                        mems.append(("td", ref_string(rnd, sc, holder, tpart, tname), tpart, tbase))
+                    else:
+                        mems.append(("plain", "string"))
+                if any(mem[0] != "plain" for mem in mems):
+                    holder.leaves.append(("l%d" % li, "union", mems))
+                    base_of.pop("l%d" % li, None)
+            elif r_kind < 0.75:
                 holder.leaves.append(("l%d" % li, "ref", ref_string(rnd, sc, holder, bp, bn)))
             else:
                 # typedef in some visible part; the leaf uses it (with an import when it lives elsewhere)
@@ -416,7 +518,9 @@ def gen_schema1(rnd):
         sc.edges = None
         # the mutations below can break the lookup of a typedef (not an identity matter): read the base directly
         for m in sc.mods:
-            m.leaves = [lf if lf[1] == "ref" else (lf[0], "ref", ref_string(rnd, sc, m, *base_of[lf[0]])) for lf in m.leaves]
+            m.leaves = [(lf[0], "ref", ref_string(rnd, sc, m, *base_of[lf[0]])) if lf[1] == "td" else local_only(m, lf)
+                        for lf in m.leaves]
+            m.leaves = [lf for lf in m.leaves if lf is not None]
             m.typedefs = []
         for _ in range(rnd.choice([1, 2, 3])):
             k = rnd.random()
@@ -466,11 +570,10 @@ def yang_text(m):
             out.append("  identity %s;" % n)
     for t in m.typedefs:
         out.append("  typedef %s { type identityref { base %s; } }" % t)
+    for t in m.aliases:
+        out.append("  typedef %s { type %s; }" % t)
     for lf in m.leaves:
-        if lf[1] == "ref":
-            out.append("  leaf %s { type identityref { base %s; } }" % (lf[0], lf[2]))
-        else:
-            out.append("  leaf %s { type %s; }" % (lf[0], lf[2]))
+        out.append("  leaf %s { %s }" % (lf[0], leaf_text(lf)))
     out.append("}")
     return "\n".join(out) + "\n"
 
@@ -493,16 +596,16 @@ def go_line(sc, auto=False, late=False):
 
 
 def refs_of(sc):
-    """identityref type statements: (leaf name, sub, full name of the module of the type statement, base string)"""
+    """the leaves with identityref types: (leaf, is union, member kinds, [(sub, full name of the module of the type
+    statement, base string) per identityref member]); member kinds: True = identityref, else the plain type"""
     out = []
     for m in sc.mods:
         if not sc.in_maps(m):
             continue       # never converted to an Entry tree
         for lf in m.leaves:
-            if lf[1] == "ref":
-                out.append((lf[0], m.sub, full(m), lf[2]))
-            else:
-                out.append((lf[0], lf[3].sub, full(lf[3]), lf[4]))
+            mems = [(c.sub, full(c), b) for c, b in leaf_members(m, lf)]
+            kinds = [True] if lf[1] != "union" else [True if mem[0] != "plain" else mem[1] for mem in lf[2]]
+            out.append((lf[0], lf[1] == "union", kinds, mems))
     return out
 
 
@@ -518,9 +621,9 @@ def ml_line(sc, oracles):
         toks.append(str(len(m.idents)))
         for n, bases in m.idents:
             toks += [hx(n), str(len(bases))] + [hx(b) for b in bases]
-    refs = refs_of(sc)
+    refs = [mem for r in refs_of(sc) for mem in r[3]]
     toks.append(str(len(refs)))
-    for _, sub, mn, b in refs:
+    for sub, mn, b in refs:
         toks += ["1" if sub else "0", hx(mn), hx(b)]
     return " ".join(toks)
 
@@ -569,7 +672,13 @@ def parse_go(sc, line):
     for lf in o["leaves"]:
         # (a submodule included by two modules is merged into the tree of only one of them, which one depends
         # on map order -- C05/C13 matter: only the distinct observations of a leaf are kept)
-        ob = [None, []] if lf["base"] == "<nil>" else [conv_decl(lf["base"]), [conv_decl(v) for v in lf["values"]]]
+        def member(x):
+            if x["base"] == "<nil>":
+                return [None, []]
+            if x["base"].startswith("-"):
+                return [x["base"], []]
+            return [conv_decl(x["base"]), [conv_decl(v) for v in x["values"]]]
+        ob = ["union", [member(u) for u in lf.get("union") or []]] if lf["base"] == "-union" else member(lf)
         if ob not in leaves.setdefault(lf["name"], []):
             leaves[lf["name"]].append(ob)
     for n in leaves:
@@ -606,7 +715,7 @@ def judge(sc, go3, mls, auto=None, late=None):
         return why
     g = parse_go(sc, go3[0])
     for other, what in ((auto, "%s are loaded by Process from the search path" % [m.name for m in sc.auto]),
-                        (late, "submodules %s are parsed between a first and a second Process" % [m.name for m in sc.late])):
+                        (late, "%s are parsed between a first and a second Process" % [full(m) for m in sc.late])):
         if other is None:
             continue
         a = parse_go(sc, other)
@@ -652,15 +761,27 @@ def judge_explicit(sc, go3, mls):
     for k, v in gvals.items():
         if k not in mvals and v:
             return "identity %s, which is not in the model's dictionary, has Values %s" % (k, v)
-    refs = refs_of(sc)
-    for (leaf, _, _, _), bk in zip(refs, mbases):
-        for gb, gv in gleaves.get(leaf, [[None, []]]):
-            if gb != bk:
-                return "identityref leaf %s: base impl=%s model=%s" % (leaf, gb, bk)
-            if gv != mvals.get(bk):
-                return "identityref leaf %s sees %s, identity %s lists %s" % (leaf, gv, bk, mvals.get(bk))
+    at = 0
+    for leaf, is_union, kinds, mems in refs_of(sc):
+        bks = mbases[at:at + len(mems)]
+        at += len(mems)
+        if is_union:
+            # Type.resolve drops a member type that equals an earlier one: identityref members are equal exactly
+            # when they point at the same identity
+            want, it = [], iter(bks)
+            for kd in kinds:
+                ob = [next(it), None] if kd is True else ["-" + kd, []]
+                if ob[1] is None:
+                    ob[1] = mvals.get(ob[0])
+                if ob not in want:
+                    want.append(ob)
+            want = [["union", want]]
+        else:
+            want = [[bks[0], mvals.get(bks[0])]]
         if leaf not in gleaves:
             return "identityref leaf %s not found in the dump" % leaf
+        if gleaves[leaf] != want:
+            return "identityref leaf %s: impl=%s, the model's bases and lists give %s" % (leaf, gleaves[leaf], want)
     if sc.edges is not None:
         exp = expected(sc)
         if exp != {k: v for k, v in gvals.items() if k in exp} or set(exp) != set(mvals):
@@ -778,6 +899,52 @@ def fixed_schemas():
             u.idents.append(["ux", ["old:x"]])
             mods.append(s)
         out.append(mk("rev", *mods))
+    # two revisions of one module bind one prefix to different modules
+    a = Mod("a", False, "a")
+    b = Mod("b", False, "b")
+    a.idents = [["foo", []], ["a1", ["foo"]]]
+    b.idents = [["foo", []], ["b1", ["foo"]], ["b2", ["b:b1"]]]
+    c0 = Mod("c", False, "c", rev="2020-01-01")
+    c1 = Mod("c", False, "c", rev="2021-06-15")
+    c0.imports = [("p", "a", "")]
+    c1.imports = [("p", "b", "")]
+    c0.idents = [["x", ["p:foo"]]]
+    c1.idents = [["x", ["p:foo"]], ["y", ["p:b1"]]]
+    c0.leaves = [("l0", "ref", "p:foo")]
+    c1.leaves = [("l1", "ref", "p:foo")]
+    out.append(mk("rev", c1, a, c0, b))
+    # unions of identityref members whose bases have one bare name in different modules; typedef members
+    a = Mod("a", False, "a")
+    b = Mod("b", False, "b")
+    a.idents = [["foo", []], ["a1", ["foo"]]]
+    b.idents = [["foo", []], ["b1", ["foo"]], ["b2", ["b:foo"]]]
+    a.typedefs = [("ta", "foo")]
+    b.typedefs = [("tb", "b:foo")]
+    c = Mod("c", False, "c")
+    c.imports = [("pa", "a", ""), ("pb", "b", "")]
+    c.idents = [["c1", ["pa:foo", "pb:foo"]]]
+    c.leaves = [("u1", "union", [("ref", "pa:foo"), ("ref", "pb:foo")]),
+                ("u2", "union", [("td", "pa:ta", a, "foo"), ("td", "pb:tb", b, "b:foo"), ("plain", "string")]),
+                ("u3", "union", [("ref", "pb:foo"), ("td", "pb:tb", b, "b:foo"), ("plain", "string"), ("ref", "pa:foo")])]
+    sc = mk("clean", a, b, c)
+    sc.edges = [((a, "a1"), (a, "foo")), ((b, "b1"), (b, "foo")), ((b, "b2"), (b, "foo")), ((c, "c1"), (a, "foo")),
+                ((c, "c1"), (b, "foo"))]
+    out.append(sc)
+    # a newer revision of a module whose identity is the base of an identityref typedef is parsed after a first Process
+    b0 = Mod("b", False, "b", rev="2020-01-01")
+    b1 = Mod("b", False, "b", rev="2021-06-15")
+    b0.idents = [["foo", []]]
+    b1.idents = [["foo", []], ["kid", ["foo"]]]
+    t = Mod("t", False, "t")
+    t.imports = [("b", "b", "")]
+    t.idents = [["d", ["b:foo"]]]
+    t.typedefs = [("ref", "b:foo")]
+    t.aliases = [("ref2", "ref")]
+    t.leaves = [("l0", "td", "ref", t, "b:foo"), ("l1", "td", "ref2", t, "b:foo"),
+                ("l2", "union", [("td", "ref", t, "b:foo"), ("plain", "string")]), ("l3", "ref", "b:foo")]
+    sc = mk("rev", b0, t, b1)
+    sc.late = [b1]
+    out.append(sc)
     return out
 
 
@@ -915,8 +1082,11 @@ def run(res, tier, seed, proof):
              "for most schemas one more implementation run in which a subset of the imported modules / included "
              "submodules is not parsed but put on the search path, so that Process loads it itself -- the result "
              "must equal the all-parsed run (and the model, which does not care how modules arrive); family late "
-             "submodules (history): a subset of the submodules is parsed only after a first Process, and the dump of a "
-             "second Process must equal the run in which everything is parsed before one Process; "
+             "(history): a subset of the submodules and of the revisions of multi-revision modules is parsed only "
+             "after a first Process, and the dump of a second Process must equal the run in which everything is "
+             "parsed before one Process; unions with identityref members (bases of one bare name in different "
+             "modules, directly and through typedefs), identityref typedefs used directly, through a second typedef "
+             "and as union members; "
              "non-trivial = rejected, or some identity with at least two derived identities" % (GO_RUNS, len(ORACLES)),
         exhaustive=False, mismatches=mism, distribution=hist,
         samples=[yang_text(m) for m in schemas[0].mods][:2] + [yang_text(m)[:400] for m in schemas[mid].mods][:2],
